@@ -236,7 +236,7 @@ func (a *attempt) steady(what string, done func() bool, deadline uint32, pend fu
 			}
 			p := pend()
 			if len(p) > 0 {
-				a.res.stall = "inclusion:pooled-everywhere-tx-not-on-chain-within-bound:validator-with-different-block-limits"
+				a.res.stall = "inclusion:pooled-everywhere-tx-not-on-chain-within-bound:" + a.family()
 				a.res.stallMsg = fmt.Sprintf("phase %d (%s): %d transactions pooled at every validator are still valid and not on chain at height %d, the bound (first %s); heights %v", ph, what, len(p), deadline, p[0].StringLE(), hs)
 				ok = false
 				break
@@ -254,8 +254,8 @@ func (a *attempt) steady(what string, done func() bool, deadline uint32, pend fu
 				}
 			}
 			if fired {
-				a.res.stall = "progress:permanent-stall-without-network-faults:validator-with-different-block-limits"
-				a.res.stallMsg = fmt.Sprintf("phase %d (%s): every node connected and every message delivered since the start, yet no node accepted a block for %s (heights %v, timer-driven payloads sent per node meanwhile %v, highest view seen at height %d: %d)", ph, what, idle.Round(time.Millisecond), hs, per, maxU32(hs)+1, rec.viewSeen(maxU32(hs)+1))
+				a.res.stall = a.stallSig()
+				a.res.stallMsg = fmt.Sprintf("phase %d (%s): every node connected and every consensus payload and block delivered since the start, yet no node accepted a block for %s (heights %v, timer-driven payloads sent per node meanwhile %v, highest view seen at height %d: %d)", ph, what, idle.Round(time.Millisecond), hs, per, maxU32(hs)+1, rec.viewSeen(maxU32(hs)+1))
 				ok = false
 				break
 			}
@@ -272,6 +272,22 @@ func (a *attempt) steady(what string, done func() bool, deadline uint32, pend fu
 	a.res.steps = append(a.res.steps, stepInfo{ph, "no faults: " + what, before, after, time.Since(t0).Milliseconds(), prod})
 	a.res.quietBlocks += prod
 	return ok
+}
+
+// family names the schedule family in stall signatures.
+func (a *attempt) family() string {
+	if a.sc.Scen == "losttx" {
+		return "proposed-transaction-unavailable-to-the-backups"
+	}
+	return "validator-with-different-block-limits"
+}
+
+func (a *attempt) stallSig() string {
+	if a.sc.Scen == "losttx" {
+		// the relay of one transaction is cut, nothing else
+		return "progress:permanent-stall-with-every-consensus-payload-delivered:" + a.family()
+	}
+	return "progress:permanent-stall-without-network-faults:" + a.family()
 }
 
 func (r *recorder) viewSeen(h uint32) byte {
